@@ -98,6 +98,43 @@ pub fn c09_def() -> PropDef {
     }
 }
 
+pub fn c11_def() -> PropDef {
+    PropDef {
+        id: "C11",
+        generate: |vs, idx, _| Record::Sim(crate::c11::generate(run_seed(vs, "C11", idx))),
+        check: |rec, c| match rec {
+            Record::Sim(s) => crate::c11::check(s, c),
+            _ => Verdict::harness("wrong record kind".into()),
+        },
+        candidates: sim_candidates,
+        runs_quick: 300_000,
+        runs_thorough: 30_000_000,
+        level: "exploration",
+        rule: "seeded histories of traced call sites r([k, F(t([k, ARG]))]) (2-3 cacheable and 1-2 non-cacheable functions, arguments from a collision-prone pool: i1 / \"1\" / \"i1\" / [i1] / f1 / d1 / true / none / crafted strings that collide under Display / maps / nested / results of other sites) spread over 1-5 rules, 2-4 consecutive, interleaved or abandoned-and-retried evaluations of the same ruleset object, failures injected by call ordinal, every invocation returning a unique value; non-trivial = at least one cache hit, or a cacheable call sharing its function or its argument with an earlier entry, or a re-invocation after a failure; distinct = distinct abstract history strings over {hit, miss, uncached, failed, abandoned} per evaluation, hashed into a 2^25-bit bitmap",
+        assumptions: &[
+            "'identical argument' is bit-exact canonical equality; argument pairs that are == but render differently (d1.0/d1.00, 0.0/-0.0) or render identically but are not == (NaN) are not generated",
+            "the checker follows the observed site order, so evaluation-order changes (C05) raise no alarm here",
+            "'carrying the original error' = the typed harness error is reachable by downcast or through the error chain; message texts are never compared",
+        ],
+        real_components: REAL,
+        stub_components: STUB,
+        expected_hits: &[
+            "hit.cache_hit",
+            "hit.reinvoked_after_failure_of_same_key",
+            "hit.same_argument_other_function",
+            "hit.same_function_other_argument",
+            "hit.uncached_call",
+            "hit.user_function_error_outcome",
+            "hit.evaluation_after_earlier_evaluation",
+            "hit.abandoned_then_retried",
+            "fault.fn_error",
+            "fault.cancel_at_point",
+            "fault.retry_after_abandon",
+            "fault.interleave_switch",
+        ],
+    }
+}
+
 pub fn all() -> Vec<PropDef> {
-    vec![c05_def(), c09_def()]
+    vec![c05_def(), c09_def(), c11_def()]
 }
